@@ -94,10 +94,20 @@ PROPS.update({
     "C12": _e2("TestVerifC12", "The space close mode x buffered input x pending output x callbacks x method x repeat (3648 points) is sampled with generated schedules in the quick tier and enumerated completely in the thorough tier; 'blocks' is exact (the caller is parked at quiescence), panics are recovered and reported.",
                "space = {user, peer, peer-then-user, detach} x {0, 5 bytes buffered} x {no, malloc'd unflushed output} x {no callbacks, OnRequest, OnConnect+OnRequest} x 38 Connection/Reader/Writer calls x {once, twice}; every point is non-trivial (the method runs after the close reached quiescence); distinct = point of the space",
                quick=600, thorough=4000),
+    "C04": dict(_e2("TestVerifC04", "Two complementary generated searches against one oracle, the position-keyed byte stream: (E2) both directions of a connection on a socketpair with a tiny send buffer under generated schedules, which reaches the flusher/poller and reader/poller hand-off windows exactly; (E3) generated bulk workloads on real threads over TCP4/TCP6/unix with generated socket buffer sizes, writer and reader API mixes, where the kernel chooses the partial-write boundaries.",
+               "E2: flush scenario (1-3 flushes of 1..12xSO_SNDBUF through Malloc/Write/WriteBinary/mixed, peer drain script, peer close) or read scenario (1-4 Reader calls up to 9000 bytes, peer chunks, peer close), generated schedule; non-trivial = the flusher parked waiting for the poller / a Reader call parked waiting for a delivery. E3: 1-4 connections x {tcp4,tcp6,unix} x payload up to 1 MiB (8 MiB thorough) each way x write chunking and API mix x reader op mix x SO_SNDBUF/SO_RCVBUF x reader pace; non-trivial = a payload of at least 4x the send buffer or above 64 KiB. distinct = scenario (+ event sequence for E2)"),
+        engine="E2 simworld + E3 livenet",
+        technique="generated schedule search over the hand-off windows (E2) plus generated bulk workloads on real sockets (E3), both against a position-keyed stream oracle",
+        parts=[
+            {"test": "TestVerifC04", "variant": "instr", "chunk": 2500, "quick": {"checks": 1500, "shards": 16}, "thorough": {"checks": 30000, "shards": 16}, "replay_marker": "decisions"},
+            {"test": "TestVerifC04Live", "variant": "plain", "chunk": 0, "crash_is_violation": True, "quick": {"checks": 12, "shards": 8}, "thorough": {"checks": 300, "shards": 12}, "replay_marker": "network"},
+        ],
+        assumptions=E2_ASSUME + ["E3: interleavings and partial-write boundaries are the OS's choice; a stall is reported only after 30 s without a single byte of progress; a failing scenario is re-run 10 times to state its reproduction rate"]),
 })
 
 ENGINES = [
     {"name": "E1 bufmachine", "path": "harness/netpoll/e1_*_test.go", "serves_properties": ["C01", "C02", "C03", "C16"], "kind_free_text": "rapid state machine over LinkBuffer against a FIFO byte-queue model with a recording pool allocator"},
+    {"name": "E3 livenet", "path": "harness/netpoll/e3_*_test.go", "serves_properties": ["C04", "C11", "C13", "C14", "C15", "C18", "C19"], "kind_free_text": "rapid-generated workloads on real threads, real pollers and real sockets with schedule-independent oracles (streams, censuses, close(2) audit)"},
     {"name": "E2 simworld", "path": "harness/netpoll/e2_*_test.go + harness/verifsched + tools/vinstr", "serves_properties": ["C04", "C05", "C06", "C07", "C08", "C09", "C10", "C11", "C13", "C17", "C18"], "kind_free_text": "generated schedules: schedule points injected at build time, cooperative scheduler around the real poller loop on socketpairs"},
 ]
 
